@@ -62,7 +62,9 @@ def rule_par(ctx):
                 ctx.violation('par', 'adaptor:%s:%s' % (bp, m), c, 'adaptor %s does not preserve index -> position' % m)
             else:
                 ctx.unrecognised('par', 'adaptor:%s:%s' % (bp, m), c, 'unknown rayon adaptor %s' % c.name)
-        oksink = len(sinks) == 1 and mir.method_name(sinks[0].name) == 'collect' and sinks[0].gargs and sinks[0].gargs[-1].startswith('std::vec::Vec<')
+        oksink = len(sinks) == 1 and (mir.method_name(sinks[0].name) == 'collect' and sinks[0].gargs and sinks[0].gargs[-1].startswith('std::vec::Vec<')
+                                      # IndexedParallelIterator::collect_into_vec writes item i to slot i by contract
+                                      or mir.method_name(sinks[0].name) == 'collect_into_vec' and 'IndexedParallelIterator' in sinks[0].name)
         ctx.check('par', 'sink:%s' % bp, oksink, sinks[0] if sinks else b, 'sink %s' % [(mir.method_name(c.name), c.gargs[-1:]) for c in sinks],
                   bad_detail='parallel sink %s: only collect::<Vec<_>> of an indexed pipeline keeps item i at position i' % [(mir.method_name(c.name), c.gargs[-1:]) for c in sinks])
         # the collected vector is what gets stored (no sort/shuffle afterwards)
